@@ -24,7 +24,7 @@ CFGS = {
 DEPTH = {'quick': {'default': (3, 6), 'retry40': (3, 5), 'small': (3, 6)},
          'thorough': {'default': (4, 9), 'retry40': (4, 8), 'small': (4, 9)}}
 PARTS = {'quick': 5, 'thorough': 5}
-WALKS = {'quick': (200, 300), 'thorough': (5000, 300)}
+WALKS = {'quick': (600, 300), 'thorough': (5000, 300)}
 BUDGET = {'quick': 50, 'thorough': 1000}
 MON = [ProfileMonitor, EstabMonitor]
 # prefix-seeded exploration: sessions whose timers coincide with the boot / idle-hold / retry timers, second sessions,
